@@ -366,7 +366,7 @@ def gen_cases(rng, tier):
         # exhaustive part: fixed programs x every position x every cause (both variants of the two-way causes)
         for chunk, maxw, base in hand:
             sweep(chunk, maxw, base, range(len(base) + 1), True)
-        for i in range(45):
+        for i in range(30):
             chunk, maxw, base = gen_base(rng, rng.randrange(1, 7), budget=6 if i % 3 == 0 else 11)
             sweep(chunk, maxw, base, range(len(base) + 1), True)
     return out
